@@ -111,3 +111,59 @@ class RecConsole:
         for objs, _ in self.items:
             out.append(" ".join(o.plain if hasattr(o, "plain") else str(o) for o in objs))
         return out
+
+
+# --------------------------------------------------------------------------- process-state snapshot (hermetic paths)
+class StateSnapshot:
+    """Baseline of every module-level / class-level mutable object of the codelimit package, taken right after import.
+    restore() puts the process back into that state, so that every explored path (and the replay in a fresh process) starts from the
+    same 'fresh process' state although CrossHair re-executes paths in one interpreter."""
+
+    def __init__(self, prefix="codelimit"):
+        import copy
+        import sys
+        import types
+        self.items = []
+        for name, mod in list(sys.modules.items()):
+            if not (name == prefix or name.startswith(prefix + ".")) or mod is None:
+                continue
+            for k, v in list(vars(mod).items()):
+                if k.startswith("__"):
+                    continue
+                if isinstance(v, (dict, list, set)):
+                    self.items.append((mod, k, copy.copy(v)))
+                elif isinstance(v, type) and getattr(v, "__module__", "") == name:
+                    for ck, cv in list(vars(v).items()):
+                        if ck.startswith("__"):
+                            continue
+                        if isinstance(cv, (dict, list, set)):
+                            self.items.append((v, ck, copy.copy(cv)))
+                        elif isinstance(cv, (int, str, bool)) or cv is None:
+                            self.items.append((v, ck, cv))
+
+    def restore(self):
+        import copy
+        for owner, k, base in self.items:
+            cur = getattr(owner, k, None) if not isinstance(owner, dict) else None
+            if isinstance(base, dict) and isinstance(cur, dict):
+                cur.clear()
+                cur.update(base)
+            elif isinstance(base, list) and isinstance(cur, list):
+                cur[:] = base
+            elif isinstance(base, set) and isinstance(cur, set):
+                cur.clear()
+                cur.update(base)
+            else:
+                try:
+                    setattr(owner, k, copy.copy(base))
+                except (AttributeError, TypeError):
+                    pass
+        # objects that appeared after the baseline (e.g. a module-level cache added later) are found by a second scan
+        import sys
+        known = {(id(o), k) for o, k, _ in self.items}
+        for name, mod in list(sys.modules.items()):
+            if not (name == "codelimit" or name.startswith("codelimit.")) or mod is None:
+                continue
+            for k, v in list(vars(mod).items()):
+                if not k.startswith("__") and isinstance(v, (dict, list, set)) and (id(mod), k) not in known:
+                    v.clear()
